@@ -86,7 +86,7 @@ def url_ok(is_connect, path):
     from yarl import URL
     try:
         if is_connect:
-            URL.build(authority=path, encoded=True)
+            URL.build(authority=path, encoded=True).host
             return True
         if path.startswith("/"):
             pp, _, frag = path.partition("#")
@@ -94,6 +94,7 @@ def url_ok(is_connect, path):
             URL.build(path=pp, query_string=qs, fragment=frag, encoded=True)
             return True
         u = URL(path, encoded=True)
+        u.host
         return bool(u.absolute)
     except ValueError:
         return False
@@ -132,6 +133,12 @@ def _show_msg(cfg, m, has_payload):
     b = lambda x: "1" if x else "0"
     return (f"M({hx(method)},{hx(path)},{m.version[0]}.{m.version[1]},{code},{hx(reason)},{b(m.should_close)},"
             f"{comp},{b(m.upgrade)},{b(m.chunked)},{b(has_payload)};{hs})")
+
+
+def _struct_msg(cfg, m):
+    if cfg.response:
+        return (m.code, _enc(m.reason), tuple(m.version), tuple((bytes(k), bytes(v)) for k, v in m.raw_headers))
+    return (_enc(m.method), _enc(m.path), tuple(m.version), tuple((bytes(k), bytes(v)) for k, v in m.raw_headers))
 
 
 def _show_rec(rec):
@@ -199,7 +206,8 @@ def run_impl(cfg, segs, eof=False):
         if msgs is not None:
             for m, pl in msgs:
                 hp_ = pl is not EMPTY_PAYLOAD
-                toks.append(_show_msg(cfg, m, hp_)); events.append(("M", _show_msg(cfg, m, hp_)))
+                toks.append(_show_msg(cfg, m, hp_))
+                events.append(("M", _show_msg(cfg, m, hp_), _struct_msg(cfg, m)))
                 if hp_:
                     toks += _show_rec(pl._rec); events += pl._rec; pl._rec = []
                     current = pl
